@@ -1052,6 +1052,8 @@ type responseWriter struct {
 	// trailers before writing the first bytes of data (like Connect
 	// and REST unary).
 	buf *bytes.Buffer
+	// number of body bytes the handler has written so far
+	bodyWritten int
 }
 
 func (w *responseWriter) Header() http.Header {
@@ -1065,6 +1067,7 @@ func (w *responseWriter) Write(data []byte) (n int, err error) {
 	if w.err != nil {
 		return 0, w.err
 	}
+	w.bodyWritten += len(data)
 	return w.w.Write(data)
 }
 
@@ -1294,6 +1297,10 @@ func (w *responseWriter) close() {
 	if w.w != nil {
 		_, _ = w.w.Write(nil) // trigger any final writes
 		_ = w.w.Close()
+	}
+	if w.contentLen >= 0 && w.bodyWritten != w.contentLen && !w.endWritten {
+		// The handler declared a content-length that its body did not honour.
+		w.reportError(fmt.Errorf("handler wrote %d bytes but declared content-length %d", w.bodyWritten, w.contentLen))
 	}
 	if w.endWritten {
 		return // all done
